@@ -428,7 +428,7 @@ func entryHeldMethods(p *Program, out map[*ssa.Function]heldSet) {
 				// translate caller paths to callee-relative: only the receiver path is translated
 				tr := heldSet{}
 				if len(s.Call.Common().Args) > 0 && !s.Call.Common().IsInvoke() {
-					recv := stripFree(lf.tb.of(s.Call.Common().Args[0], 0)).String()
+					recv := stripFree(lf.tb.of(ArgK(s.Call, 0), 0)).String()
 					for _, l := range h {
 						if strings.HasPrefix(l.Path, recv+".") {
 							np := "p0" + strings.TrimPrefix(l.Path, recv)
@@ -507,7 +507,7 @@ func entryHeldClosures(p *Program, out map[*ssa.Function]heldSet) {
 						held[key] = l
 					}
 					if len(call.Common().Args) > 0 && len(atInvoke) > 0 {
-						recv := stripFree(plf.tb.of(call.Common().Args[0], 0)).String()
+						recv := stripFree(plf.tb.of(ArgK(call, 0), 0)).String()
 						for _, l := range atInvoke {
 							if strings.HasPrefix(l.Path, "p0.") {
 								np := recv + strings.TrimPrefix(l.Path, "p0")
